@@ -8,7 +8,7 @@ from common import *
 CLAUSES = {
     "C02": ("R1", "R2", "R3", "R4", "R5a", "R5b", "R5c", "R7", "P0"),
     "C01": ("R7", "R8", "P0"),
-    "C05": ("D0", "D1", "D2", "D2b", "D3", "B1", "B2", "B3", "R4", "R5a", "R5b"),
+    "C05": ("D0", "D1", "D2", "D2b", "D3", "B1", "B2", "B3", "R1e", "R4", "R5a", "R5b"),
 }
 
 # bytes per model unit when a configuration's behaviours are replayed on the real code
